@@ -200,3 +200,8 @@ package sm3
 //@   ensures ghost(dlen, baseMD) == len(z) && forall j :: 0 <= j && j < len(z) ==> ghost(dmsg, baseMD)[j] == old(z[j])
 //@   ensures ((keyLen + 31) / 32 < 4 || cfg_purego) ==> forall q :: 0 <= q && q < (keyLen + 31) / 32 ==> kdfblock(result, q, keyLen, ghost(dmsg, baseMD), len(z))
 //@   modifies baseMD.h, baseMD.x, baseMD.nx, baseMD.len, ghost(dmsg, baseMD), ghost(dlen, baseMD)
+
+//@ func Kdf property C01
+//@   requires len(z) < 2305843009213693000 && 0 <= keyLen && keyLen <= 4294967000
+//@   ensures len(result) == keyLen
+//@   modifies nothing
